@@ -16,6 +16,8 @@ def jobs(tier):
     for where in range(4):
         for x in ((1, 2, 3) if q else range(5)):
             pre = ["0 <= l < 5", "0 <= r < 5", "0 <= al < 5", "0 <= p1 < 5", "0 <= p2 < 5", "0 <= y < 5", "0 <= z < 5", "l != r and l != al and r != al", "p1 != p2"]
+            if not q:
+                pre += ["l == 0", "r == 1", "al == 2", "y != 2", "z != 2"]
             if q:
                 # header names fixed (a, b, c); the solver chooses the parameter names (collisions with any of them, or a
                 # free name) and which roles supply the index and the numeric argument
